@@ -24,6 +24,11 @@ ASSUMPTIONS = [
 ]
 
 
+def c17_nodes(d):
+    from . import c17
+    return [(n, p) for n, p in c17.all_nodes(d)] + [(d, ())]
+
+
 def gen_case(r):
     d = G.hostile_doc(r, 4 if r.coin(60) else 3)
     n = r.between(1, 4)
@@ -61,6 +66,16 @@ def gen_case(r):
                 if nm == "in_":
                     ref = PathT([Prim(k) for k in p[:-1]], "map_values" if isinstance(model.walk(d, p[:-1]), dict) else None) if p[:-1] else ref
                 rules[i] = rules[i].replace(cond=Leaf("value", None, nm, kwargs={"value": ref}))
+    if r.pct() < 5:
+        # a concrete cast path that counts a list index from the END (-1, -2): it selects nothing (there is no such key or
+        # index), so nothing is cast - although Python's own indexing would find the castable string there
+        lists = [(n, p) for n, p in c17_nodes(d) if isinstance(n, list) and n]
+        if lists:
+            n_, p_ = r.choice(lists)
+            k_ = -r.between(1, min(2, len(n_)))
+            kind_ = r.choice(["bool", "int"])
+            n_[k_] = r.choice(["true", "False"] if kind_ == "bool" else ["3", "-12"])
+            rules.append(RuleT(PathT([Prim(x) for x in p_] + [Prim(k_)]), G.tree(r, ("value",), "typed", 1), kind_))
     # plant castable strings where a cast rule selects only uncastable nodes
     GOOD = {"bool": ["true", "True", "TRUE", "false", "False", "FALSE", "tRuE"], "int": ["3", "-12", " 7 ", "0", "٣"]}
     for rl in rules:
